@@ -56,6 +56,7 @@ type clientStreamProcessorMPEGTS struct {
 	trackProcessors    map[*Track]*clientTrackProcessorMPEGTS
 	curSegment         *segmentData
 	leadingTrackFound  bool
+	pendingSamples     []func() error
 	dateTimeProcessed  bool
 	clientStreamTracks []*clientTrack
 
@@ -195,7 +196,9 @@ func (p *clientStreamProcessorMPEGTS) initializeReader(ctx context.Context, firs
 		isLeadingTrack := (i == leadingTrackID)
 		var trackProc *clientTrackProcessorMPEGTS
 
-		processSample := func(rawPTS int64, rawDTS int64, data [][]byte) error {
+		var processSample func(rawPTS int64, rawDTS int64, data [][]byte) error
+
+		processSample = func(rawPTS int64, rawDTS int64, data [][]byte) error {
 			if isLeadingTrack {
 				p.leadingTrackFound = true
 
@@ -210,8 +213,13 @@ func (p *clientStreamProcessorMPEGTS) initializeReader(ctx context.Context, firs
 			if trackProc == nil {
 				trackProc = p.trackProcessors[track.track]
 
-				// wait leading track before proceeding
+				// wait leading track before proceeding.
+				// samples of other tracks can be demuxed before the first sample of the leading
+				// track even if they follow it in time, therefore they cannot be discarded.
 				if trackProc == nil {
+					p.pendingSamples = append(p.pendingSamples, func() error {
+						return processSample(rawPTS, rawDTS, data)
+					})
 					return nil
 				}
 			}
@@ -226,6 +234,18 @@ func (p *clientStreamProcessorMPEGTS) initializeReader(ctx context.Context, firs
 					leadingTimeConvMPEGTS(p.client).setNTP(*p.curSegment.dateTime, dts)
 				}
 				leadingTimeConvMPEGTS(p.client).setLeadingNTPReceived()
+			}
+
+			// process samples that were received before the first one of the leading track
+			if isLeadingTrack && p.pendingSamples != nil {
+				pending := p.pendingSamples
+				p.pendingSamples = nil
+				for _, cb := range pending {
+					err := cb()
+					if err != nil {
+						return err
+					}
+				}
 			}
 
 			ntp := leadingTimeConvMPEGTS(p.client).getNTP(ctx, dts)
